@@ -33,7 +33,7 @@ import stringprep
 import types
 import unicodedata
 
-from vlib.core import HarnessError, LibraryFault, Outcome
+from vlib.core import HarnessError, LibraryFault, Outcome, debug_logging
 from vlib.runner import Campaign
 
 ID = "C18"
@@ -703,7 +703,8 @@ def _run_handshake(case, server):
     conn = Conn()
     coro = conn._do_sasl_handshake()
     try:
-        coro.send(None)
+        with debug_logging((case["k"] >> 1) & 1):      # every other login runs with DEBUG logging switched on
+            coro.send(None)
     except StopIteration:
         return True, None, conn
     except HarnessError:
@@ -720,6 +721,8 @@ def execute_handshake(case):
     hname = MECHS[mech]
     user, pw, salt, iters, kind, snonce = case["user"], case["pw"], case["salt"], case["iters"], case["kind"], case["snonce"]
     out.label("handshake_loop", kind, mech)
+    if (case["k"] >> 1) & 1:
+        out.label("debug_logging_on")
     out.nontrivial = kind != "hs_honest"
     account = Account(hname, pw, salt, iters)
     ctx = {"kind": kind, "mech": mech, "framing": "SaslAuthenticate" if case["k"] % 2 == 0 else "raw token"}
